@@ -34,22 +34,22 @@ def r1(ctx, cfg):
         f = ctx.need_fn(R, key)
         if f is None:
             continue
+        # form-agnostic: `Self::verify_response(self.with_storage(..)?)`, `self.with_storage(..).and_then(Self::verify_response)`
+        # and a spliced private helper doing either have the same return origin
         ws = q.calls(f, W + "with_storage")
-        vr = q.calls(f, W + "verify_response")
-        ok = len(ws) == 1 and len(vr) == 1
-        ctx.ob(R, key, "shape", ok, "%s must run with_storage once and verify_response once (found %d/%d)" % (name, len(ws), len(vr)), fn=f, sample="1/1")
+        ok = len(ws) == 1
+        ctx.ob(R, key, "shape", ok, "%s must run with_storage once (found %d)" % (name, len(ws)), fn=f, sample="1")
         if not ok:
             continue
-        vb, vt = vr[0]
-        a = peel(P.call_args(f, vt, vb)[0])
-        ok = a[0] == "ok" and peel(a[1])[0] == "call" and peel(a[1])[1] == W + "with_storage"
-        ctx.ob(R, key, "response-is-validated", ok, "verify_response receives %s" % fmt(a)[:100], fn=f, line=vt["line"],
-               sample="verify_response(with_storage(..)?)")
         ret = peel(P.ret(f))
-        rest = [o for o in alts(ret) if not (o[0] == "call" and o[1].endswith("FromResidual::from_residual"))]
+        rest = [peel(o) for o in alts(ret) if not (peel(o)[0] == "call" and peel(o)[1].endswith("FromResidual::from_residual"))]
         ok = len(rest) == 1 and rest[0][0] == "call" and rest[0][1] == W + "verify_response"
         ctx.ob(R, key, "only-validated-response-returned", ok, "%s returns %s" % (name, fmt(ret)[:120]), fn=f,
                sample="returns verify_response(..) | propagated error")
+        a = peel(rest[0][2][0]) if ok else ("?",)
+        ok = ok and a[0] == "ok" and peel(a[1])[0] == "call" and peel(a[1])[1] == W + "with_storage"
+        ctx.ob(R, key, "response-is-validated", ok, "verify_response receives %s" % fmt(a)[:100], fn=f,
+               sample="verify_response(with_storage(..)?)")
     # with_storage is called only from the call_* wrappers; verify_response is total over its callers
     callers = sorted({f.key.split("::{closure")[0] for f, b, t in q.all_calls(F, W + "with_storage")})
     ctx.ob(R, W + "with_storage", "callers-are-the-validating-wrappers", callers == sorted(W + n for n in CALLS),
